@@ -104,7 +104,7 @@ Proof.
   intros fs c t pk c' fs' W H n.
   pose proof (load_all_listing bytes kid fs c W) as [A1 [A2 [A3 [A4 A5]]]].
   pose proof (c_save_container xml bytes kid par kids mime fs c t pk) as Hc. rewrite H in Hc. cbn [fst] in Hc. subst c'.
-  set (c1 := c_load_missing bytes kid FIXED fs (c_listing bytes kid fs c) c) in *.
+  set (c1 := c_load_missing bytes kid FIXED fs (c_listing bytes kid FIXED fs c) c) in *.
   rewrite <- A1. unfold Pkgproof.cB.
   destruct (lookup n (parts _ c1)) as [[b|]|] eqn:Ln; [reflexivity|reflexivity|].
   rewrite (A5 n Ln).
@@ -175,7 +175,7 @@ Proof.
     { intros ->. unfold Package.c_save in CS. destruct (lookup MIMETYPE _); inversion CS as [[Ec Ef2]].
       rewrite <- Ef2 in O. unfold Package.c_open in O. rewrite lookup_upsert_eq in O. discriminate O. }
     destruct (c_save_sem xml bytes kid par kids mime fs (cont _ _ d4) t pk c5 fs' (wfd_c _ _ _ _ _ W4) Hpk CS) as [S1 _].
-    destruct (save_loops xml bytes kid ser par pretty (emask xm) par_ser pty pk fs d3 d4 true W3 (Hm2 xm) EL eq_refl) as [Fl _].
+    destruct (save_loops xml bytes kid ser par pretty xml (emask xm) par_ser pty pk fs d3 d4 true W3 (Hm2 xm) EL eq_refl) as [Fl _].
     assert (HBo : forall n, dB fs' (mkD c []) n = dB fs d4 n).
     { intros n. rewrite (open_obs fs' (tgt_id t) b c F' O n). apply S1. }
     apply (PkgOK_transfer xml bytes kid par entries mime fs d4 fs' _ H4).
